@@ -5,6 +5,7 @@
 mod c07;
 mod c08;
 mod c11;
+mod c18;
 mod common;
 
 use vmon_core::{ChildCtx, Engine, Plan, Shard, Tier};
@@ -19,7 +20,7 @@ fn floors(v: &[(&str, u64)]) -> Vec<(String, u64)> { v.iter().map(|(k, n)| (k.to
 impl Engine for E {
     fn name(&self) -> &'static str { "eng-crypto" }
 
-    fn props(&self) -> Vec<&'static str> { vec!["C11", "C07", "C08"] }
+    fn props(&self) -> Vec<&'static str> { vec!["C11", "C07", "C08", "C18"] }
 
     fn plan(&self, prop: &str, tier: Tier) -> Plan {
         let quick = tier == Tier::Quick;
@@ -141,6 +142,10 @@ impl Engine for E {
                 }
                 p.floors.extend(f.drain(..).map(|(k, n)| (k.to_string(), n * s)));
             }
+            "C18" => {
+                p.cases = if quick { 40 } else { 1500 };
+                p.timeout_s = if quick { 900 } else { 3 * 3600 };
+            }
             _ => {}
         }
         p
@@ -151,6 +156,7 @@ impl Engine for E {
             "C11" => c11::run(ctx, out),
             "C07" => c07::run(ctx, out),
             "C08" => c08::run(ctx, out),
+            "C18" => c18::run(ctx, out),
             _ => out.inconclusive.push("unknown property".into()),
         }
     }
